@@ -183,6 +183,14 @@ def evaluate(prop, cases):
             res.append({"case": case, "impl": impl, "model": None, "spec": "fail: the implementation raised while being observed: " + impl["exc"],
                         "k_ok": False, "s_ok": False})
             continue
+        if "err" in out and os.environ.get("VERIF_STRICT_DRIVER") != "1":
+            # the judge cannot read what was observed (a number where a text is expected, a negative position, a missing record):
+            # an observation outside the shape every observation on the unchanged code has.  Reported as a failure of the property on
+            # this input, with the driver's message; VERIF_STRICT_DRIVER=1 turns it back into an infrastructure error (harness debugging)
+            res.append({"case": case, "impl": impl, "model": None,
+                        "spec": "fail: the observation is outside the domain of the specification (%s)" % out["err"][:160],
+                        "k_ok": False, "s_ok": False})
+            continue
         if "err" in out:
             raise Infra("driver rejected case %s: %s" % (canon(case)[:300], out["err"]))
         k_ok = canon(prop.project(impl)) == canon(out["m"])
@@ -214,12 +222,17 @@ def _shard_worker(args):
         bad = []
         samples = []
         for r in results:
-            for key in prop.features(r["case"], r["impl"]):
-                dist[key] += 1
+            crashed = r.get("model") is None and not r["s_ok"]
+            if crashed:
+                # the observation itself raised (already judged as a failure): no feature extraction on a missing observation
+                dist["observation-raised"] += 1
+            else:
+                for key in prop.features(r["case"], r["impl"]):
+                    dist[key] += 1
             h = hashlib.blake2b(canon(r["case"]).encode(), digest_size=8).digest()
             if h not in seen:
                 seen.add(h)
-                if prop.nontrivial(r["case"], r["impl"]):
+                if not crashed and prop.nontrivial(r["case"], r["impl"]):
                     nontrivial += 1
             if not (r["k_ok"] and r["s_ok"]):
                 if len(bad) < 200:
